@@ -121,7 +121,10 @@ def shrink_violation(mod, v, scratch, findings):
         return v
     cur = v
     for _ in range(12):
+        norm = getattr(mod, "normalize", None)
         cands = cand_fn(cur[0])[:60]
+        if norm:
+            cands = [norm(c) for c in cands]
         if not cands:
             break
         o = Outcome()
@@ -136,14 +139,16 @@ def shrink_violation(mod, v, scratch, findings):
     return cur
 
 
-def corpus_cases(prop_id):
+def corpus_cases(prop_id, mod=None):
     d = os.path.join(C.VERIF, "corpus", prop_id)
+    norm = getattr(mod, "normalize", None) if mod else None
     out = []
     if os.path.isdir(d):
         for f in sorted(os.listdir(d)):
             if f.endswith(".json"):
                 try:
-                    out.append(json.load(open(os.path.join(d, f)))["case"])
+                    c = json.load(open(os.path.join(d, f)))["case"]
+                    out.append(norm(c) if norm else c)
                 except Exception:
                     pass
     return out
@@ -179,7 +184,7 @@ def run_check(prop_id, tier):
         report({"kind": "build", "what": "the working tree does not build, nothing can be shown to hold",
                 "log": build_err}, nofail=True)
     else:
-        cases = corpus_cases(prop_id) + mod.gen(rng, tier)
+        cases = corpus_cases(prop_id, mod) + mod.gen(rng, tier)
         evaluate(mod, cases, scratch, out, findings)
         extra_ev = {}
         if hasattr(mod, "extra_phase"):
